@@ -20,6 +20,7 @@ import (
 	"fmt"
 	"os"
 	"strings"
+	"sync"
 	"testing"
 	"time"
 
@@ -82,31 +83,64 @@ func TestC20(t *testing.T) {
 		tPhase = time.Now()
 	}
 
+	// C20_PHASES (debugging aid): comma-separated subset of
+	// nonterm,exit,libwrite,reach,api,hooks,grammar; default all
+	want := func(name string) bool {
+		sel := os.Getenv("C20_PHASES")
+		if sel == "" {
+			return true
+		}
+		for _, p := range strings.Split(sel, ",") {
+			if p == name {
+				return true
+			}
+		}
+		col.NotExhaustive("phase " + name + " skipped by C20_PHASES")
+		return false
+	}
+
 	// 1. non-termination first (timing is least disturbed while the other phases have not started everywhere)
-	checkNonTermination(col, 0)
+	if want("nonterm") {
+		checkNonTermination(col, 0)
+	}
 	phase("nonterm")
 	// 2. exit codes
-	checkExitCodes(col, 3)
+	if want("exit") {
+		checkExitCodes(col, 3)
+	}
 	// 3. library table writes
-	checkLibWrites(col, db)
+	if want("libwrite") {
+		checkLibWrites(col, db)
+	}
 	phase("exit_libwrite")
-	// 4. reachability closure (one shard)
-	if si == sn-1 {
-		checkReachability(t, col, db)
-		phase("reach")
+	// 4.-7. the remaining phases run side by side: the hook lane waits for git
+	// processes, the closure and the grammar are CPU-bound
+	var wg sync.WaitGroup
+	par := func(name string, f func()) {
+		wg.Add(1)
+		go func() {
+			defer wg.Done()
+			t0 := time.Now()
+			f()
+			col.Add("max_phase_ms_"+name, time.Since(t0).Milliseconds())
+		}()
 	}
-	// 5. registered APIs are read-only, hook result handling through the repository API (one shard)
-	if si == (sn-2+sn)%sn {
-		checkAPIsReadOnly(t, col)
-		checkHookResults(t, col)
-		phase("api_hookresults")
+	if si == sn-1 && want("reach") {
+		par("reach", func() { checkReachability(t, col, db) })
 	}
-	// 6. hook selection
-	checkHookSelection(t, col, 5)
-	phase("hooks")
-	// 7. escape grammar
-	exploreGrammar(col, db, depth)
-	phase("grammar")
+	if si == (2*sn-2)%sn && want("api") {
+		par("api_hookresults", func() {
+			checkAPIsReadOnly(t, col)
+			checkHookResults(t, col)
+		})
+	}
+	if want("hooks") {
+		par("hooks", func() { checkHookSelection(t, col, 5) })
+	}
+	if want("grammar") {
+		par("grammar", func() { exploreGrammar(col, db, depth) })
+	}
+	wg.Wait()
 }
 
 func checkReachability(t *testing.T, col *evid.Collector, db *refDB) {
